@@ -22,6 +22,12 @@ pub fn bases() -> Vec<String> {
             ));
         }
     }
+    // the same projects converted with their result files: these models carry overrides
+    for d in corpus::project_dirs() {
+        if d.join("KyGananciasSolares.txt").exists() {
+            b.push(format!("convx:{}", d.strip_prefix(&root).unwrap_or(&d).to_string_lossy()));
+        }
+    }
     for (k, _) in modelfault::minimal_sessions() {
         b.push(format!("min:{}", k));
     }
